@@ -343,6 +343,7 @@ type jsCase struct {
 	K        int   `json:"samples_each"`
 	Queue    int   `json:"queue"`
 	FlushMs  int   `json:"flush_interval_ms"`
+	FlushUs  int   `json:"flush_interval_us,omitempty"` // >0: a flush interval of microseconds (ticks all the time, also while the run is being cancelled)
 	Buffer   int   `json:"buffer_bytes"`
 	SlowUs   int   `json:"slow_sink_us"` // >0: direct construction with a slow sink (drops certain)
 	CancelUs int   `json:"cancel_after_last_report_us"`
@@ -362,6 +363,9 @@ func jsonlinesOnce(res *vkit.Result, c jsCase) {
 		conf.Sink = coreSink{ss}
 		conf.ReporterConfig.SampleQueueSize = c.Queue
 		conf.FlushInterval = time.Duration(c.FlushMs) * time.Millisecond
+		if c.FlushUs > 0 {
+			conf.FlushInterval = time.Duration(c.FlushUs) * time.Microsecond
+		}
 		if c.Buffer > 0 {
 			conf.BufferSize = c.Buffer
 		}
@@ -373,6 +377,9 @@ func jsonlinesOnce(res *vkit.Result, c jsCase) {
 		defer vkit.RemoveMem(dest)
 		conf := map[string]any{"type": "jsonlines", "sink": map[string]any{"type": "file", "path": dest},
 			"sample-queue-size": c.Queue, "flush-interval": fmt.Sprintf("%dms", c.FlushMs)}
+		if c.FlushUs > 0 {
+			conf["flush-interval"] = fmt.Sprintf("%dus", c.FlushUs)
+		}
 		if c.Buffer > 0 {
 			conf["buffer-size"] = c.Buffer
 		}
@@ -964,6 +971,10 @@ func main() {
 	}
 	jsonlinesOnce(res, jsCase{G: 4, K: 200, Queue: 1, FlushMs: 1, SlowUs: 300, CancelUs: 0, Seed: 21})
 	jsonlinesOnce(res, jsCase{G: 2, K: 10, Queue: 64, FlushMs: 1000, CancelUs: 0, Seed: 22})
+	// a large backlog in the queue when the cancel arrives, and a flush timer that ticks all the time
+	for i := 0; i < 6; i++ {
+		jsonlinesOnce(res, jsCase{G: 4, K: 5000, Queue: 20000, FlushUs: 1 + 20*i, CancelUs: 0, Seed: int64(23 + i)})
+	}
 	for i, n := 0, vkit.N(100, 1500); i < n; i++ {
 		c := jsCase{G: 1 + rng.Intn(16), K: 1 + rng.Intn(150), Queue: []int{1, 2, 7, 64, 4096}[rng.Intn(5)], FlushMs: []int{1, 5, 50, 1000}[rng.Intn(4)],
 			Buffer: []int{0, 0, 64, 4096}[rng.Intn(4)], CancelUs: cancelUs[rng.Intn(len(cancelUs))], Seed: rng.Int63()}
